@@ -18,6 +18,7 @@ import (
 	"fmt"
 	"math/rand"
 	"net"
+	"runtime"
 	"runtime/debug"
 	"time"
 
@@ -339,6 +340,7 @@ func (s *seqSide) recvOnce(fam string) ([]rxItem, bool) {
 func runScript(pass, fam string, steps []lbStep) (fail *lbFailure, lossy bool, skipped string) {
 	old := debug.SetGCPercent(-1) // a GC would empty the sync.Pool whose reuse is the point
 	defer debug.SetGCPercent(old)
+	defer runtime.GOMAXPROCS(runtime.GOMAXPROCS(1)) // one P: the pool's private slot is always hit
 	var sides [2]*seqSide
 	for i := range sides {
 		s, err := openSeqSide(pass == "pool_nooffload")
